@@ -38,7 +38,9 @@ ASSUMPTIONS = [
 
 WILD_TEXTS = ["1e+16", "1E5", "1e3", "1.0", "1.", ".5", "0x10", " 12", "12 ", "+5", "-0", "1_0", "\u0661\u0662", "\uff11\uff12",
               "1,000", "1.000", "007", "TRUE", "true", "12:00:00", "1900-01-01", "NaN", "inf", "-inf", "1e400",
-              "12345678901234567890", "1.2345678901234568e+16", "3.0e+0", "1 000", "\xa012", "=1+1", "'12"]
+              "12345678901234567890", "1.2345678901234568e+16", "3.0e+0", "1 000", "\xa012", "=1+1", "'12",
+              # more than one line
+              "two\nlines", "x\n", "\nx", "a\n\nb"]
 # what spreadsheet programs and float formatting make of big or fractional numbers
 WILD_NUMBERS = ["1e+16", "-3e+17", "1e+10", "1.2345678901234568e+16", "1E+16", "1e16", "2e+05", "1.5e+3", "12e+16",
                 "1e-05", "1.0", "100.0", "1.00", "5.", "1,0", "1.0E+3"]
@@ -53,6 +55,10 @@ DATA_FORMATS = ("delimited", "ods", "excel")
 def cases(draw):
     spec = draw(gen_tables.cid_specs(kinds=("excel",), max_header=2))
     spec["fmt"]["sheet"] = None
+    if draw(st.integers(0, 2)) == 0:
+        # the data format says which characters a value may hold - in all three storage formats alike
+        spec["fmt"]["allowed"], spec["fmt"]["allowed_text"] = draw(st.sampled_from([
+            ([[32, 126]], "32...126"), ([[32, None]], "32..."), ([[10, 10], [32, 255]], "10, 32...255")]))
     rows = draw(gen_tables.tables(spec, max_rows=6, ragged=False))
     header = spec["fmt"].get("header", 0)
     if len(rows) > header and draw(st.booleans()):
@@ -228,7 +234,7 @@ def check_case(sub, case):
 
 
 def run(ctx):
-    ctx.hyp("storage", cases, check_case, ctx.n(1000, 20000))
+    ctx.hyp("storage", cases, check_case, ctx.n(3000, 20000))
 
 
 def replay(sub, case):
